@@ -340,6 +340,9 @@ func main() {
 			fmt.Printf("HARNESS-ERROR case %d: %s\n", i, oneLine(c.res.Reason, 1500))
 		case "inconclusive":
 			inconcl++
+			if inconcl <= 10 {
+				fmt.Printf("  inconclusive case %d class=%s: %s\n", i, c.res.Class, oneLine(c.res.Reason, 300))
+			}
 		}
 	}
 	if nViol > 0 {
@@ -600,6 +603,14 @@ func classifyCrash(stderr string) result {
 	return r
 }
 
+// repoDir is the source tree the child was built from.
+func repoDir() string {
+	if r := os.Getenv("VERIF_REPO"); r != "" {
+		return strings.TrimRight(r, "/")
+	}
+	return "/repo"
+}
+
 type race struct {
 	Key     string
 	Count   int
@@ -630,7 +641,15 @@ func parseRaces(work string) []race {
 			for _, sec := range strings.Split(acc, "\n\n") {
 				top := ""
 				for _, l := range strings.Split(sec, "\n") {
-					if !strings.HasPrefix(l, "  ") || strings.HasPrefix(l, "      ") {
+					if strings.HasPrefix(l, "      ") {
+						// source position of the frame above: a product closure inlined into a harness function keeps
+						// the harness function's name but the product's file
+						if pth := strings.TrimSpace(l); strings.HasPrefix(pth, repoDir()+"/") && !strings.Contains(pth, "verifhook") {
+							product = true
+						}
+						continue
+					}
+					if !strings.HasPrefix(l, "  ") {
 						continue
 					}
 					fn := strings.TrimSpace(l)
